@@ -25,7 +25,7 @@ Definition is_ready (r : res) : bool :=
 (** one poll of a child sitting in slot [s] of block [b] *)
 Definition poll_child (k : ckind) (c : child) (b s : nat) (w : world) : child * res * world :=
   let w := emit (ECPoll (cid c) b s (b, s)) (g_poll w) in
-  if cdone c then (c, RP, emit (ECAns (cid c) RP) w)
+  if cdone c then (c, RP, emit (ECAns (cid c) RP) (g_done w))   (* never happens: LiveProofs *)
   else
     match cscript c with
     | [] => (c, RP, emit (ECAns (cid c) RP) w)
